@@ -235,3 +235,10 @@ Proof.
   exact (conj (proj1 (p_g_cardano1 cr one3 H1 H2)) (conj (proj2 (p_g_cardano1 cr one3 H1 H2))
         (conj (proj1 (p_g_trig cr one3 H1 H2)) (proj2 (p_g_trig cr one3 H1 H2))))).
 Qed.
+
+Lemma T_phase_redefinition_resets_cached_gas_state :
+  (forall f, In f ["pr_si_f"; "pr_p"; "pr_tk"; "pr_a"; "pr_b"; "pr_alpha"; "pr_aa_sum2"; "t_c"; "p_c"; "omega"; "p_soln_x"; "moles_x";
+                   "fraction_x"; "lk"; "in"]%string -> exists q, In (f, q) phase_init_consts /\ (q == 0)%Q) /\
+  (exists q, In ("pr_phi"%string, q) phase_init_consts /\ (q == 1)%Q) /\ In ("pr_in"%string, "false"%string) phase_init_others /\
+  (exists c, In (c, "phase_init(phase_ptr)"%string) phase_store_reinit_calls) /\ (1 <= phase_alloc_init_calls)%nat.
+Proof. exact (phase_reinit_sound _ _ _ _ phase_reinit_generated). Qed.
